@@ -592,6 +592,10 @@ pub fn gen_spec(seed: u64, focus: &str, tier: &str) -> RunSpec {
     if !cfg.kf_probe && cfg!(feature = "var_c") && matches!(cfg.plan.as_str(), "StickyImmix" | "MarkCompact") {
         cfg.plan = "Immix".to_string();
     }
+    // KF-CONCIMMIX-HEADER-LOGBIT: the SATB barrier is never armed with an in-header log bit.
+    if !cfg.kf_probe && cfg!(feature = "var_b") && cfg.plan == "ConcurrentImmix" {
+        cfg.plan = "Immix".to_string();
+    }
     if cfg.plan == "NoGC" {
         // A stress GC under NoGC reaches `unreachable!("GC triggered in nogc")` by design.
         cfg.stress_factor = None;
